@@ -34,7 +34,16 @@ def build_instance(inst, name="verif", **metadata) -> JobShopInstance:
             ms = [m - 1 for m in op["ms"]]
             ops.append(Operation(ms if len(ms) > 1 else ms[0], op["d"]))
         jobs.append(ops)
+    INSTANCE_STYLE["n"] += 1
+    if INSTANCE_STYLE["mix"] and INSTANCE_STYLE["n"] % 3 == 0 and len(jobs) > 1:
+        # "every instance" includes one assembled from Operation objects that were attached to another instance
+        # before (what the library's own transformations do): a scratch instance with the jobs in another order
+        # numbers them first; the instance under test must number them again.
+        JobShopInstance([list(j) for j in reversed(jobs)] + [[Operation(0, 1)]], name="scratch")
     return JobShopInstance(jobs, name=name, **metadata)
+
+
+INSTANCE_STYLE = {"mix": True, "n": 0}
 
 
 def mid(m):
